@@ -29,7 +29,7 @@ def django_env():
     from django.conf import settings
     if not settings.configured:
         settings.configure(INSTALLED_APPS=["vapp"], DATABASES={"default": {"ENGINE": "django.db.backends.sqlite3", "NAME": ":memory:"}},
-                           DEFAULT_AUTO_FIELD="django.db.models.AutoField", USE_TZ=False)
+                           DEFAULT_AUTO_FIELD="django.db.models.AutoField", USE_TZ=True)
     import os
     here = os.path.dirname(os.path.abspath(__file__))
     if here not in sys.path:
@@ -50,9 +50,15 @@ def django_env():
         label = models.CharField(max_length=50, null=True)
         class Meta:
             app_label = "vapp"; db_table = "tag"
+    class W(models.Model):
+        # a second relationship called `o`, to a DIFFERENT model (Tag): W.o -> Tag, while P.o -> O
+        o = models.ForeignKey(Tag, null=True, on_delete=models.CASCADE, related_name="ws")
+        class Meta:
+            app_label = "vapp"; db_table = "w"
     class P(models.Model):
         a = models.IntegerField(null=True); s = models.CharField(max_length=50, null=True)
         o = models.ForeignKey(O, null=True, on_delete=models.CASCADE, related_name="ps")
+        w = models.ForeignKey(W, null=True, on_delete=models.CASCADE, related_name="ps")
         tags = models.ManyToManyField(Tag, related_name="ps")
         class Meta:
             app_label = "vapp"; db_table = "p"
@@ -63,9 +69,9 @@ def django_env():
         class Meta:
             app_label = "vapp"; db_table = "k"
     with connection.schema_editor() as se:
-        for m in (T, O, Tag, P, K):
+        for m in (T, O, Tag, W, P, K):
             se.create_model(m)
-    _dj.update(T=T, O=O, P=P, K=K, Tag=Tag, connection=connection)
+    _dj.update(T=T, O=O, P=P, K=K, Tag=Tag, W=W, connection=connection)
     return _dj
 
 def django_load_scalar(rows):
@@ -75,11 +81,12 @@ def django_load_scalar(rows):
     return T
 
 def django_load_rel(db):
-    env = django_env(); O, P, K, Tag = env["O"], env["P"], env["K"], env["Tag"]
-    K.objects.all().delete(); P.tags.through.objects.all().delete(); P.objects.all().delete(); O.objects.all().delete(); Tag.objects.all().delete()
+    env = django_env(); O, P, K, Tag, W = env["O"], env["P"], env["K"], env["Tag"], env["W"]
+    K.objects.all().delete(); P.tags.through.objects.all().delete(); P.objects.all().delete(); W.objects.all().delete(); O.objects.all().delete(); Tag.objects.all().delete()
     O.objects.bulk_create([O(id=r["id"], n=r.get("n"), name=r.get("name")) for r in db["o"]])
     Tag.objects.bulk_create([Tag(id=r["id"], label=r.get("label")) for r in db["tag"]])
-    P.objects.bulk_create([P(id=r["id"], a=r.get("a"), s=r.get("s"), o_id=r.get("o_id")) for r in db["p"]])
+    W.objects.bulk_create([W(id=r["id"], o_id=r.get("o_id")) for r in db.get("w", [])])
+    P.objects.bulk_create([P(id=r["id"], a=r.get("a"), s=r.get("s"), o_id=r.get("o_id"), w_id=r.get("w_id")) for r in db["p"]])
     K.objects.bulk_create([K(id=r["id"], x=r.get("x"), p_id=r["p_id"], o_id=r.get("o_id")) for r in db["k"]])
     Th = P.tags.through
     Th.objects.bulk_create([Th(p_id=a, tag_id=b) for a, b in db["p_tags"]])
@@ -107,11 +114,18 @@ def sa_env():
     class Tag(Base):
         __tablename__ = "tag"
         id = sa.Column(sa.Integer, primary_key=True); label = sa.Column(sa.String)
+    class W(Base):
+        __tablename__ = "w"
+        id = sa.Column(sa.Integer, primary_key=True)
+        o_id = sa.Column(sa.ForeignKey("tag.id"), nullable=True)
+        o = relationship("Tag")
     class P(Base):
         __tablename__ = "p"
         id = sa.Column(sa.Integer, primary_key=True); a = sa.Column(sa.Integer); s = sa.Column(sa.String)
         o_id = sa.Column(sa.ForeignKey("o.id"), nullable=True)
         o = relationship("O")
+        w_id = sa.Column(sa.ForeignKey("w.id"), nullable=True)
+        w = relationship("W")
         kids = relationship("K", back_populates="p")
         tags = relationship("Tag", secondary=p_tags)
     class K(Base):
@@ -122,7 +136,7 @@ def sa_env():
         o = relationship("O")
     eng = sa.create_engine("sqlite://")
     Base.metadata.create_all(eng)
-    _sa.update(sa=sa, Base=Base, T=T, O=O, P=P, K=K, Tag=Tag, p_tags=p_tags, engine=eng, Session=Session, t_table=T.__table__, p_table=P.__table__)
+    _sa.update(sa=sa, Base=Base, T=T, O=O, P=P, K=K, Tag=Tag, W=W, p_tags=p_tags, engine=eng, Session=Session, t_table=T.__table__, p_table=P.__table__)
     return _sa
 
 def sa_load_scalar(rows):
@@ -136,14 +150,16 @@ def sa_load_scalar(rows):
 def sa_load_rel(db):
     env = sa_env()
     with env["engine"].begin() as c:
-        for tbl in (env["p_tags"], env["K"].__table__, env["P"].__table__, env["O"].__table__, env["Tag"].__table__):
+        for tbl in (env["p_tags"], env["K"].__table__, env["P"].__table__, env["W"].__table__, env["O"].__table__, env["Tag"].__table__):
             c.execute(tbl.delete())
         if db["o"]:
             c.execute(env["O"].__table__.insert(), [{"id": r["id"], "n": r.get("n"), "name": r.get("name")} for r in db["o"]])
         if db["tag"]:
             c.execute(env["Tag"].__table__.insert(), [{"id": r["id"], "label": r.get("label")} for r in db["tag"]])
+        if db.get("w"):
+            c.execute(env["W"].__table__.insert(), [{"id": r["id"], "o_id": r.get("o_id")} for r in db["w"]])
         if db["p"]:
-            c.execute(env["P"].__table__.insert(), [{"id": r["id"], "a": r.get("a"), "s": r.get("s"), "o_id": r.get("o_id")} for r in db["p"]])
+            c.execute(env["P"].__table__.insert(), [{"id": r["id"], "a": r.get("a"), "s": r.get("s"), "o_id": r.get("o_id"), "w_id": r.get("w_id")} for r in db["p"]])
         if db["k"]:
             c.execute(env["K"].__table__.insert(), [{"id": r["id"], "x": r.get("x"), "p_id": r["p_id"], "o_id": r.get("o_id")} for r in db["k"]])
         if db["p_tags"]:
